@@ -181,10 +181,10 @@ func hangingSibling(r *rand.Rand) *scen.Scenario {
 }
 
 func TestHangingSibling(t *testing.T) {
-	sub := vf.Cur().Sub("hanging-sibling", fmt.Sprintf(rule, "targeted: a receiver with two integrations, one hanging or failing for the whole run (every flush lasts the full pipeline time-out), group_interval 20-60 s, repeat_interval 2.5 group intervals; the healthy integration must get its repeats no later than repeat_interval plus one flush period"), 6)
 	if vf.RaceEnabled {
 		t.Skip("race pass: only the parallel-flush family")
 	}
+	sub := vf.Cur().Sub("hanging-sibling", fmt.Sprintf(rule, "targeted: a receiver with two integrations, one hanging or failing for the whole run (every flush lasts the full pipeline time-out), group_interval 20-60 s, repeat_interval 2.5 group intervals; the healthy integration must get its repeats no later than repeat_interval plus one flush period"), 6)
 	sysrun.Run(t, "C04", sub, sysrun.Family{Name: "hang", Quick: 24, Thorough: 1000, NonTrivial: nt, Gen: hangingSibling}, checkers(0))
 }
 
@@ -211,9 +211,9 @@ func subSecondFlushes(r *rand.Rand) *scen.Scenario {
 }
 
 func TestSubSecondFlushes(t *testing.T) {
-	sub := vf.Cur().Sub("sub-second-flushes", fmt.Sprintf(rule, "targeted: group_interval 200-300 ms, twelve alerts joining one group 250-550 ms apart, so that several notifications (and log entries) of the group fall into one wall-clock second; afterwards 30 s without change: no notification may repeat a delivered state"), 8)
 	if vf.RaceEnabled {
 		t.Skip("race pass: only the parallel-flush family")
 	}
+	sub := vf.Cur().Sub("sub-second-flushes", fmt.Sprintf(rule, "targeted: group_interval 200-300 ms, twelve alerts joining one group 250-550 ms apart, so that several notifications (and log entries) of the group fall into one wall-clock second; afterwards 30 s without change: no notification may repeat a delivered state"), 8)
 	sysrun.Run(t, "C04", sub, sysrun.Family{Name: "subsec", Quick: 30, Thorough: 1500, NonTrivial: nt, Gen: subSecondFlushes}, checkers(0))
 }
